@@ -162,8 +162,9 @@ impl Simplifier {
             // invariant that `Expression::PiConstant()` can never be returned from `simplify`.
             Expression::PiConstant() => ArcIntern::new(Expression::Number(PI)),
 
-            // We're out of gas; this is as simplified as things get
-            _ if limit == 0 => e.clone(),
+            // We're out of gas; this is as simplified as things get, but the invariant about π
+            // still has to hold for everything below this point
+            _ if limit == 0 => replace_pi(&e),
 
             // Atoms don't need to be simplified
             Expression::Address(_) | Expression::Number(_) | Expression::Variable(_) => e.clone(),
@@ -187,6 +188,28 @@ impl Simplifier {
         self.simplify_cache.insert(e, result.clone());
 
         result
+    }
+}
+
+/// Replace every [`Expression::PiConstant`] in an expression by its numeric value, without
+/// simplifying anything else.
+fn replace_pi(e: &ArcIntern<Expression>) -> ArcIntern<Expression> {
+    match e.as_ref() {
+        Expression::PiConstant() => interned::number(PI),
+        Expression::Address(_) | Expression::Number(_) | Expression::Variable(_) => e.clone(),
+        Expression::FunctionCall(FunctionCallExpression {
+            function,
+            expression,
+        }) => interned::function_call(*function, replace_pi(expression)),
+        Expression::Infix(InfixExpression {
+            left,
+            operator,
+            right,
+        }) => interned::infix(replace_pi(left), *operator, replace_pi(right)),
+        Expression::Prefix(PrefixExpression {
+            operator,
+            expression,
+        }) => interned::prefix(*operator, replace_pi(expression)),
     }
 }
 
